@@ -198,7 +198,8 @@ Definition sstep (a : astate) (s : sop) : astate * obs :=
     ({| a_vals := upd (a_vals a) cn (if is_nil t then None else Some [t]);
         a_asg := upd (a_asg a) cn false |}, OOk)
   | SRemovePrefix p =>
-    ({| a_vals := fun n => if is_prefix p n then None else a_vals a n; a_asg := a_asg a |}, OOk)
+    ({| a_vals := fun n => if is_prefix p n then None else a_vals a n;
+        a_asg := fun n => if is_prefix p n then false else a_asg a n |}, OOk)
   | SCookieWrite cn key s =>
     ({| a_vals := upd (a_vals a) cn (Some (cookie_set (all_vals a cn) key s)); a_asg := a_asg a |}, OOk)
   | SCookieRemove cn key =>
